@@ -59,6 +59,9 @@ SETS = {
 _BASE = {k: list(v) for k, v in SETS.items()}
 SETS["C02"] = _BASE["C02"] + _BASE["C03"]
 SETS["C01"] = _BASE["C01"] + _BASE["C02"] + _BASE["C03"] + [x for x in _BASE["C04"] if x[0] in ("platform", "preprocessor")] + [("file_source", "c_*"), ("file_source", "one_space_line.*"), ("file_source", "line_info.*")]
+SETS["C01"] = SETS["C01"] + [("language", ALL)]
+SETS["C05"] = _BASE["C05"] + [("language", ALL)]
+SETS["C18"] = _BASE["C18"] + [("language", ALL), ("source", ALL)]
 SETS["C17"] = _BASE["C17"] + SETS["C01"]
 SETS["C13"] = _BASE["C13"] + [("platform", "Platform.find_include_file"), ("platform", "Platform.add_include_path"), ("preprocessor", "IncludeNode.*")]
 for _k in SETS:
@@ -108,6 +111,11 @@ def _make(prop):
         for short, g, f, node in new_module_state(repo, mods):
             ctx.violation(f"{short}:module-state:{g}", f"`{g}` is module-level mutable state that {f.key} changes at run time: what one call (command, platform, table, run) records is visible to every later one", f.loc(node))
         ctx.ok(f"module-state:{','.join(mods)}")
+        from ..review import removed_table_entries
+
+        for short, name, what, line in removed_table_entries(repo, mods):
+            ctx.violation(f"{short}:{name}:table-entry-removed:{what[:80]}", f"the constant table `{name}` no longer has the reviewed entry `{what}` (moved, renamed or dropped): every input that relied on it is now classified / handled differently", f"codebasin/{short.replace('.', '/')}.py:{line}")
+        ctx.ok(f"constant-tables:{','.join(mods)}")
         ctx.floor(max(3, len(funcs) // 2))
 
     rx.__name__ = f"rx_{prop}"
